@@ -32,6 +32,7 @@ type World struct {
 	funcsByKey   map[string]*ssa.Function
 	allFuncs     map[*ssa.Function]bool
 	loadErrors   []string
+	preserveSets map[string]*Item
 	knownObligations map[string]bool
 }
 
@@ -116,6 +117,11 @@ func loadWorld(repo string, patterns []string) (*World, error) {
 					w.lemmas[k] = it
 				case "axiom":
 					w.axioms = append(w.axioms, it)
+				case "preserveset":
+					if w.preserveSets == nil {
+						w.preserveSets = map[string]*Item{}
+					}
+					w.preserveSets[it.Name] = it
 				}
 			}
 		}
@@ -257,4 +263,34 @@ func funcQName(fn *ssa.Function) string {
 		p = strings.TrimPrefix(p, modPath+"/")
 	}
 	return p + "." + fn.RelString(f.Pkg.Pkg)
+}
+
+// preservedTypes expands a preserves clause (type names, or @name for a declared set).
+func (w *World) preservedTypes(it *Item) []types.Type {
+	pv, ok := it.Opts["preserves"]
+	if !ok {
+		return nil
+	}
+	var out []types.Type
+	var expand func(pkgPath, list string)
+	expand = func(pkgPath, list string) {
+		pkg := w.typesPkg(pkgPath)
+		for _, n := range splitTop(list, ',') {
+			n = strings.TrimSpace(n)
+			if n == "" || n == "nothing" {
+				continue
+			}
+			if strings.HasPrefix(n, "@") {
+				ps := w.preserveSets[n[1:]]
+				if ps == nil {
+					specFail("unknown preserve set %s", n)
+				}
+				expand(ps.Pkg, ps.Opts["list"])
+				continue
+			}
+			out = append(out, w.resolveType(pkg, n))
+		}
+	}
+	expand(it.Pkg, pv)
+	return out
 }
